@@ -38,6 +38,10 @@ STRENGTHENED = {
  ("C12","r3m4"): "one 300-bit SIQS family in the quick tier (A above 2^127)",
  ("C13","r3m4"): "factor base above 2^16 primes; reports chosen where a prime of index >= 65536 divides",
  ("C16","r3m3"): "batches of 4000 semiprimes of 30..44 bits through rho()/rho64()",
+ # fourth round (r4*): C03 C04 C05 C10 C12 C13 C14 C16
+ ("C05","r4m3"): "when the predicate is true before the call (k = 0) no stage may be entered at all",
+ ("C10","r4m1"): "period-2 full-size operands at every second modulus size in the ten bits above each packing-class limit (also caught by C20)",
+ ("C10","r4m4"): "multi-prime back end at the modulus sizes just below each step of its CRT width",
 }
 rows = []
 for f in sorted(glob.glob(os.path.join(os.path.dirname(__file__), "..", "seeded", "*", "*", "meta.json"))):
